@@ -332,4 +332,35 @@ def rule_equality_predicate(ctx):
             "rewrites relying on it: %s" % users)
 
 
-RULES = [rule_rw1, rule_rw3, rule_rw4, rule_rw5, rule_comparisons, rule_strategy, rule_apply, rule_equality_predicate]
+def rule_subsort_table(ctx):
+    """simplify_transitive_equality keeps the variable of the smaller sort: subsort(v1, v2) must be the subsort relation of the three sorts
+    (every sort is a subsort of itself and of `general`; integer and symbol are unrelated)."""
+    fx = ctx.facts
+    b = fx.fn("classic::unstable::subsort")
+    ev = sym.Eval(fx, inline_depth=0)
+    sorts = fx.variants("syntax_tree::fol::sigma_0::Sort")
+    ctx.add("RW-7", "subsort:sorts", sorted(sorts) == ["General", "Integer", "Symbol"], ctx.site(b), "sorts: %s" % sorts)
+    for s1 in sorts:
+        for s2 in sorts:
+            v = ev.function(b, [("ctor", "Variable", (("name", ("param", "$n1")), ("sort", ("ctor", "Sort::" + s1, ())))),
+                                ("ctor", "Variable", (("name", ("param", "$n2")), ("sort", ("ctor", "Sort::" + s2, ()))))])
+            want = (s1 == s2) or s2 == "General"
+            ctx.add("RW-7", "subsort:%s<=%s" % (s1, s2), v == ("lit", want), ctx.site(b), "subsort(%s, %s) = %s (definition: %s)" % (s1, s2, v, want))
+
+
+def rule_use_sites(ctx):
+    """`applied inside verify`: the portfolios composed before gamma in the strong-equivalence task act on here-and-there formulas and may only
+    contain the HT-sound lists (shared with C03: RW-2)."""
+    from . import c03
+    sub = type(ctx)(ctx.prop, ctx.tier, ctx.facts)
+    c03.rule_pipe(sub)
+    n = 0
+    for o in sub.obls:
+        if o["key"].startswith("RW-2:"):
+            ctx.obls.append(o)
+            n += 1
+    if n == 0:
+        raise AnalysisGap("no RW-2 use-site obligations")
+
+
+RULES = [rule_rw1, rule_rw3, rule_rw4, rule_rw5, rule_comparisons, rule_strategy, rule_apply, rule_equality_predicate, rule_subsort_table, rule_use_sites]
